@@ -25,6 +25,8 @@ LIBRARY = [
     {'id': 8, 'name': 'KBr', 'kind': 'Solid', 'mw': '119', 'dens': '2.75', 'act': '1'},      # non-default solid density
     {'id': 9, 'name': 'trypsin', 'kind': 'Enzyme', 'mw': '1', 'dens': '40', 'act': '1300'},  # non-default U/mL
 ]
+# a second lot of an enzyme: same name, different specific activity (Substance.__eq__ ignores the activity); used by directed cases only
+TWIN_LOT = {'id': 10, 'name': 'lipase', 'kind': 'Enzyme', 'mw': '1', 'dens': '1', 'act': '25000'}
 
 
 def make_substance(sd):
@@ -134,6 +136,7 @@ class Impl:
         self.subs = {sd['id']: make_substance(sd) for sd in subs}
         self.sid = {id(s): k for k, s in self.subs.items()}
         self.byname = {s.name: k for k, s in self.subs.items()}
+        self.bykey = {(s.name, s.specific_activity, s.mol_weight, s.density): k for k, s in self.subs.items()}
         self.env = {}
 
     def ref(self, r):
@@ -193,10 +196,10 @@ class Impl:
     def dump_container(self, c):
         cont = {}
         for s, a in c.contents.items():
-            key = self.byname.get(s.name, -1) if s.name != 'fake solvent' else 0
+            key = getattr(self, 'bykey', {}).get((s.name, s.specific_activity, s.mol_weight, s.density), self.byname.get(s.name, -1))
             cont[key] = cont.get(key, F(0)) + F(a)
         mx = None if c.max_volume == float('inf') else F(c.max_volume)
-        return {'t': 'c', 'name': c.name, 'cont': cont, 'order': [self.byname.get(s.name, -1) for s in c.contents],
+        return {'t': 'c', 'name': c.name, 'cont': cont, 'order': [getattr(self, 'bykey', {}).get((s.name, s.specific_activity, s.mol_weight, s.density), self.byname.get(s.name, -1)) for s in c.contents],
                 'vol': F(c.volume), 'max': mx}
 
     def dump(self, o):
